@@ -26,7 +26,8 @@ def c12(ck):
     v = util.judge_parallel(ck, "Trace_Sanitize", out, "sanitize_stack_copy on all TLC cases (concretised with the real bucket size, aliasing classes preserved) and random (layout, stack, sp) triples", "Sanitize", describe, jobs=6 if quick else 14)
     if v.get("words", 0) == 0:
         raise core.ToolError("vacuous: no stack word was classified")
-    ck.cov["distinct_nontrivial"] = v.get("checked", 0)
+    c12_dump_part(ck, quick)
+    ck.cov["distinct_nontrivial"] = v.get("checked", 0) + ck.cov.get("dump_level_stacks", 0)
     ck.cov["words_classified"] = v.get("words", 0)
     ck.cov["rule"] = "one case = (mapping layout, stack-pointer mapping, region bytes, sp offset); non-trivial = the call returned and at least the shape clauses were evaluated; TLC cases are all distinct, random ones seeded"
     ck.cov["exhaustive"] = True
@@ -34,6 +35,103 @@ def c12(ck):
     ck.sample({"model_case": cases[len(cases) // 2]})
     ck.assumptions += ["addresses are logged as (bucket, offset) pairs; values >= 2^47 keep only their pre-filter class (bucket mod 2^11)",
                        "mappings given to the dumper are synthetic (PtraceDumper over a paused child with `mappings` replaced)"]
+
+
+SENTINEL = 0x0defaced0defaced
+
+
+def _c12_dump_scenarios(quick, seed):
+    import random
+    rnd = random.Random(seed)
+    from . import dumps
+    scns = []
+    combos = [(None, False), (1000, False), (300000, True), (None, True)] if quick else [(l, s) for l in (None, 1000, 200000, 300000) for s in (False, True)]
+    for k, (lim, skip) in enumerate(combos):
+        n = 26 if lim else 6
+        threads = []
+        for i in range(n):
+            sp_off = [0x100, 0x900, 0xb03, 0x700, 0x800, 0x40][i % 6] + 4096 * (i % 2)
+            words = [[8 * j, v] for j, v in enumerate([{"region": "code", "off": 16 + i}, {"region": "data", "off": 32}, 7, -4096 & ((1 << 64) - 1), 4097, {"region": "data", "off": 40},
+                                                       {"self_stack": True, "off": 24}, {"region": "code", "off": 4095}, {"region_end": "code"}, 0, SENTINEL, {"region": "data", "off": 8}], start=1)]
+            threads.append({"mode": "pause", "stack_pages": 1 + i % 2, "sp_off": sp_off, "words": words})
+        w = {"blamed": {"slot": 1}, "sanitize": True}
+        if lim:
+            w["size_limit"] = lim
+        if skip:
+            w.update({"skip": True, "principal": {"region": "code", "off": 100}})
+        if k % 2 == 1:
+            w["crash_context"] = {"sp": {"thread_sp": 1}, "ip": {"region": "code", "off": 64}}
+        scns.append({"id": f"sanitize-dump/{k}", "target": {"threads": threads, "regions": [{"name": "code", "len": 4096, "exec": True}, {"name": "data", "len": 4096}]}, "writer": w, "want_stacks": True})
+    return scns
+
+
+def _c12_dump_events(run, d):
+    from . import threads as th
+    if d.get("outcome") != "ok":
+        return [{"ev": "failed", "origin": run["id"]}]
+    maps = th.parse_maps(d["oracle"]["maps"])
+    mem = {m["tid"]: m for m in d["oracle"].get("stack_mem", [])}
+    dumped = {s["tid"]: s for s in d.get("stack_bytes", [])}
+    evs = []
+    for t in d["streams"]["threads"]["threads"]:
+        tid = t["tid"]
+        if t["stack_size"] == 0 or tid not in mem or tid not in dumped:
+            continue
+        sp = int(t["ctx"]["rsp"], 16)
+        if d["opts"]["crash_context"] and tid == d["writer"]["blamed"]:
+            sp = int(d["supplied"]["rsp"], 16)
+        db = bytes.fromhex(dumped[tid]["hex"])
+        start = dumped[tid]["start"]
+        mb, mfrom = bytes.fromhex(mem[tid]["hex"]), mem[tid]["from"]
+        own = th.find_map(maps, sp)
+        # words are taken at the same alignment as the writer does: from the stack pointer rounded up to a word, relative to the region start
+        first = ((sp - start + 7) // 8) * 8 if sp >= start else 0
+        counts = {}
+        def add(pos, dump, memc):
+            counts[(pos, dump, memc)] = counts.get((pos, dump, memc), 0) + 1
+        for off in range(0, first, 8):
+            chunk = db[off:min(off + 8, first)]
+            add("below", "zero" if not any(chunk) else "other", "na")
+        off = first
+        while off + 8 <= len(db):
+            dv = int.from_bytes(db[off:off + 8], "little")
+            a = start + off
+            if a < mfrom or a + 8 > mfrom + len(mb):
+                off += 8
+                continue
+            mv = int.from_bytes(mb[a - mfrom:a - mfrom + 8], "little")
+            sv = mv - (1 << 64) if mv >> 63 else mv
+            mm = th.find_map(maps, mv)
+            memc = ("small" if -4096 <= sv <= 4096 else "ownstack" if own is not None and own["s"] <= mv < own["e"] else
+                    "exec" if mm is not None and "x" in mm["perms"] else "sentinel" if mv == SENTINEL else "other")
+            add("above", "same" if dv == mv else "sentinel" if dv == SENTINEL else "zero" if dv == 0 else "other", memc)
+            off += 8
+        if off < len(db):
+            add("tail", "zero" if not any(db[off:]) else "other", "na")
+        evs.append({"ev": "c12d", "origin": run["id"], "tid": tid, "sameLength": len(db) == t["stack_size"],
+                    "combos": [{"pos": p, "dump": dk, "mem": mk, "n": n} for (p, dk, mk), n in sorted(counts.items())]})
+    return evs
+
+
+def c12_dump_part(ck, quick):
+    from . import dumps
+    runs = dumps.run_scenarios(ck, _c12_dump_scenarios(quick, ck.seed), "c12_dumps")
+    evs = [e for r in runs for d in r["dumps"] for e in _c12_dump_events(r, d)]
+    evs += [{"ev": "failed", "origin": r["id"]} for r in runs if not r["dumps"]]
+    out = os.path.join(ck.work, "c12_dumps.ndjson")
+    core.export_lines(evs, out)
+
+    def describe(hist, tag):
+        e = hist[-1]
+        bad = [c for c in e.get("combos", []) if not ((c["pos"] in ("below", "tail") and c["dump"] == "zero") or (c["pos"] == "above" and ((c["mem"] in ("small", "ownstack", "exec") and c["dump"] == "same") or (c["mem"] not in ("small", "ownstack", "exec") and (c["dump"] == "sentinel" or (c["dump"] == "same" and c["mem"] == "sentinel"))))))]
+        return ({"tag": tag}, f"{tag} in {e.get('origin')} thread {e.get('tid')}: word combinations (position, dumped vs memory, class of the memory word, count) that C12 does not allow: {bad[:6]}; region length kept: {e.get('sameLength')}")
+    v = util.judge_batch(ck, "Trace_SanitizeDump", out, "every word of every stack of dumps taken with sanitising (alone, with the size limit, with skip-if-unreferenced, with a crash context) against the target's memory and /proc/<pid>/maps",
+                         "Sanitize", describe, traces=len(evs))
+    kinds = {(c["pos"], c["dump"], c["mem"]) for e in evs for c in e.get("combos", [])}
+    need = {("above", "same", "small"), ("above", "same", "exec"), ("above", "same", "ownstack"), ("above", "sentinel", "other"), ("below", "zero", "na")}
+    if not need <= kinds:
+        raise core.ToolError(f"vacuous dump-level sanitising check: combinations seen {sorted(kinds)}")
+    ck.cov["dump_level_stacks"] = v.get("checked", 0)
 
 
 def c17(ck):
